@@ -78,6 +78,9 @@ pub struct World {
     pub include_self: bool,
     /// Values depend only on (node, index) instead of being unique per reply.
     pub stable_values: bool,
+    /// Some values are listed more than once in a reply, adjacent and apart (the stream must yield
+    /// every occurrence).
+    pub repeat_values: bool,
     /// Extra delay added to every reply (on top of the network's latency).
     pub reply_delay: Micros,
     /// If set, replies bypass the network fault model and take exactly this long.
@@ -213,6 +216,7 @@ impl World {
             k: 8,
             include_self: false,
             stable_values: false,
+            repeat_values: false,
             reply_delay: 0,
             exact_reply_latency: None,
             keep_served: true,
@@ -354,6 +358,13 @@ impl World {
                                 tagged_value(seq, j, v6)
                             };
                             reply.values.push(value);
+                            if self.repeat_values && (seq as usize + j as usize) % 3 == 0 {
+                                reply.values.push(value);
+                            }
+                        }
+                        if self.repeat_values && seq % 2 == 0 && reply.values.len() >= 2 {
+                            let first = reply.values[0];
+                            reply.values.push(first);
                         }
                         served.values = reply.values.clone();
                     }
